@@ -20,7 +20,7 @@ func init() {
 		Run: runC01, Workers: 16, GOMAXPROCS: 4,
 		QuickTimeout: 5 * time.Minute, ThoroughTimeout: 30 * time.Minute,
 		QuickFloor: 300, ThoroughFloor: 5000,
-		RequiredCounters: []string{"acquires_checked", "slow_path_grants", "cancelled_while_blocked", "foreign_hold_double_release", "failed_trylock", "MutexBlock", "RWMutexBlock"},
+		RequiredCounters: []string{"acquires_checked", "slow_path_grants", "cancelled_while_blocked", "foreign_hold_double_release", "failed_trylock", "many_reader_cases", "MutexBlock", "RWMutexBlock"},
 		Rule: "each case runs 2-12 actors for 20-200 operations each on one csync.Mutex / RWMutex (direct API, Locker and RLocker adapters): Lock with live, pre-cancelled and cancelled-while-blocked contexts, TryLock, first and repeated release, repeated release while another actor holds; " +
 			"an occupancy word (writers<<32|readers) is incremented only after an acquire returned and decremented before the first release is called, and asserted after every increment; " +
 			"non-trivial = at least one slow-path grant, cancel-while-blocked or foreign-hold double release happened; distinct = distinct orders of recorded acquire/release/cancel events",
@@ -30,7 +30,7 @@ func init() {
 		Run: runC02, Workers: 16, GOMAXPROCS: 4,
 		QuickTimeout: 6 * time.Minute, ThoroughTimeout: 40 * time.Minute,
 		QuickFloor: 200, ThoroughFloor: 4000,
-		RequiredCounters: []string{"quiescent_states_judged", "states_with_blocked_waiter", "writer_preference_probes", "final_trylock_probes", "cancelled_waiters", "RWMutexBlock", "MutexBlock"},
+		RequiredCounters: []string{"quiescent_states_judged", "states_with_blocked_waiter", "writer_preference_probes", "final_trylock_probes", "cancelled_waiters", "cancel_trace_cases", "RWMutexBlock", "MutexBlock"},
 		Rule: "each case is a controller-driven history on one csync.Mutex or RWMutex with 3-8 actors: bursts of 1-3 concurrent actions (start Lock read/write, release a holder, cancel a waiter, TryLock) are issued, then the process is brought to goroutine-state quiescence and the state is judged from harness facts " +
 			"(holders, blocked waiters with live/cancelled contexts); the drain phase releases/cancels one at a time so that each event is the only one that can wake anybody; finally TryLock(write) and TryLock(read) must succeed; " +
 			"a read acquire started alone while a writer is blocked must not be granted; non-trivial = at least one judged quiescent state had a blocked waiter or a writer-preference probe ran; distinct = distinct action/result sequences",
@@ -126,6 +126,65 @@ func runC01(w *mon.Worker) {
 		w.Case("contention", map[string]any{"rwmutex": rw}, func(c *mon.Case) { c01Case(c, rw) })
 	}
 	mon.ClearProb()
+	// "many readers" means many: counts just above the powers of two at which a narrowed counter would wrap
+	for i := 0; i < w.Share(w.Scale(16, 64)); i++ {
+		w.Case("many-readers", nil, c01ManyReadersCase)
+	}
+}
+
+// c01ManyReadersCase: one goroutine takes a large number of read locks (both entry points), then a writer must be
+// refused while they are held and admitted once they are released.
+func c01ManyReadersCase(c *mon.Case) {
+	r := c.Rng
+	sizes := []int{255, 256, 257, 65535, 65536, 65537, 70001}
+	n := sizes[r.IntN(len(sizes))]
+	var m csync.RWMutex
+	rels := make([]func(), 0, n)
+	ctx := context.Background()
+	for i := 0; i < n; i++ {
+		if i%2 == 0 {
+			rel, ok := m.TryLock(false)
+			if !ok {
+				c.Violate("exclusion", "rwmutex-reader-refused-with-only-readers", "TryLock(read) failed with %d read holders and no writer", i)
+				return
+			}
+			rels = append(rels, rel)
+		} else {
+			rel, err := m.Lock(ctx, false)
+			if err != nil {
+				c.Violate("exclusion", "lock-foreign-error", "Lock(read) returned %v with %d read holders and no writer", err, i)
+				return
+			}
+			rels = append(rels, rel)
+		}
+		if i == n-1 || i == n/2 {
+			if rel, ok := m.TryLock(true); ok {
+				c.Violate("exclusion", "rwmutex-conflicting-holders", "TryLock(write) succeeded while %d read locks are held", i+1)
+				rel()
+				return
+			}
+		}
+	}
+	c.Count("many_reader_cases", 1)
+	c.Count("acquires_checked", int64(n))
+	c.NonTrivial()
+	c.Mix(uint64(n))
+	for i, rel := range rels {
+		rel()
+		if i == len(rels)-2 {
+			if rel, ok := m.TryLock(true); ok {
+				c.Violate("exclusion", "rwmutex-conflicting-holders", "TryLock(write) succeeded while 1 of %d read locks is still held", n)
+				rel()
+				return
+			}
+		}
+	}
+	rel, ok := m.TryLock(true)
+	if !ok {
+		c.Violate("exclusion", "rwmutex-unobtainable-without-holder", "TryLock(write) fails after all %d read locks were released", n)
+		return
+	}
+	rel()
 }
 
 func c01Case(c *mon.Case, rw bool) {
@@ -394,6 +453,96 @@ func runC02(w *mon.Worker) {
 		w.Case("controller", map[string]any{"rwmutex": rw}, func(c *mon.Case) { c02Case(c, rw) })
 	}
 	mon.ClearProb()
+	// a cancelled writer is gone by the time its Lock call returns, also when the internal lock is contended
+	mon.SetProb(0.5, verifhook.BcastLocked)
+	mon.SetProb(0.2, verifhook.BcastEnter, verifhook.BcastExit)
+	for i := 0; i < w.Share(w.Scale(1600, 100000)); i++ {
+		w.Case("cancel-trace", nil, c02CancelTraceCase)
+	}
+	mon.ClearProb()
+}
+
+// c02CancelTraceCase: a reader holds; a writer blocks and is cancelled while other goroutines hammer the lock with
+// TryLock(read). The moment the writer's Lock returns context.Canceled it has left no trace: a reader is admitted at once.
+func c02CancelTraceCase(c *mon.Case) {
+	r := c.Rng
+	var m csync.RWMutex
+	relR, ok := m.TryLock(false)
+	if !ok {
+		c.Violate("waiters", "rwmutex-reader-refused-on-idle-lock", "TryLock(read) failed on a fresh RWMutex")
+		return
+	}
+	arrived := make(chan struct{})
+	var once sync.Once
+	mon.OnSite(verifhook.RWMutexBlock, func(obj any) {
+		if obj == any(&m) {
+			once.Do(func() { close(arrived) })
+		}
+	})
+	defer mon.OnSite(verifhook.RWMutexBlock, nil)
+	wctx, wcancel := context.WithCancel(context.Background())
+	defer wcancel()
+	var werr error
+	var probeOK, gotLock atomic.Bool
+	wDone := make(chan struct{})
+	c.Go("w", func() {
+		defer close(wDone)
+		rel, err := m.Lock(wctx, true)
+		werr = err
+		if err == nil {
+			gotLock.Store(true)
+			rel()
+			return
+		}
+		c.Rec("w", "Lock returned", fmt.Sprint(err))
+		if rel2, ok := m.TryLock(false); ok {
+			probeOK.Store(true)
+			rel2()
+		}
+	})
+	select {
+	case <-arrived:
+	case <-time.After(5 * time.Second):
+		c.Inconclusive("writer never blocked")
+		return
+	}
+	var stop atomic.Bool
+	nh := 1 + r.IntN(4)
+	for i := 0; i < nh; i++ {
+		c.Go(fmt.Sprint("h", i), func() {
+			for !stop.Load() {
+				if rel, ok := m.TryLock(false); ok {
+					rel()
+				}
+			}
+		})
+	}
+	for i := 0; i < r.IntN(40); i++ {
+		runtime.Gosched()
+	}
+	c.Rec("d", "cancel the blocked writer", nil)
+	wcancel()
+	select {
+	case <-wDone:
+	case <-time.After(5 * time.Second):
+	}
+	stop.Store(true)
+	relR()
+	if !c.WaitActors(5 * time.Second) {
+		c.Inconclusive("actors did not finish")
+		return
+	}
+	c.Count("cancel_trace_cases", 1)
+	c.NonTrivial()
+	c.Mix(uint64(nh))
+	switch {
+	case gotLock.Load():
+		c.Violate("waiters", "rwmutex-writer-granted-while-reader-holds", "a writer was granted the lock while a reader held it")
+	case werr != context.Canceled:
+		c.Violate("waiters", "lock-foreign-error", "the cancelled writer's Lock returned %v", werr)
+	case !probeOK.Load():
+		c.Violate("waiters", "rwmutex-cancelled-writer-left-trace", "right after the cancelled writer's Lock returned context.Canceled, TryLock(read) by the same goroutine failed although only readers hold the lock and no writer waits: the departed writer is still counted")
+	}
 }
 
 func c02Case(c *mon.Case, rw bool) {
